@@ -301,6 +301,44 @@ pub fn run(args: &Args) -> Report {
         }
         let _ = std::fs::remove_dir_all(&dir);
     }
+    // fault cases: a file that includes itself, and a cycle through a second file: an error that names the directive
+    // (IncludeFileError), never an abort; the tie compares the outcome with the Lean model's depth-limited recursion
+    for (k, files) in [
+        vec![("main.a2l".to_string(), "ASAP2_VERSION 1 71\n/include \"main.a2l\"\n".to_string())],
+        vec![("main.a2l".to_string(), "ASAP2_VERSION 1 71\n/begin PROJECT p \"\"\n/include sub/b.a2l\n/end PROJECT\n".to_string()), ("sub/b.a2l".to_string(), "/begin MODULE m \"\"\n/include \"../main.a2l\"\n/end MODULE\n".to_string())],
+        vec![("main.a2l".to_string(), "ASAP2_VERSION 1 71\n/begin PROJECT p \"\"\n/include b.a2l\n/end PROJECT\n".to_string()), ("b.a2l".to_string(), "/begin MODULE m \"\"\n/include b.a2l\n/end MODULE\n".to_string())],
+    ]
+    .into_iter()
+    .enumerate()
+    {
+        let dir = root.join(format!("cycle{k}"));
+        write_files(&dir, &files);
+        let input = describe(&files);
+        rep.case(&input, true);
+        rep.bump("include-cycle");
+        std::fs::write(&current, &input).ok();
+        let main_path = dir.join("main.a2l");
+        match catch(|| a2lfile::load(&main_path, None, false)) {
+            Err(p) => rep.fail("panic", input.clone(), format!("include cycle: {p}")),
+            Ok(Ok(_)) => rep.fail("cycle-accepted", input.clone(), "a file that includes itself loads without an error".into()),
+            Ok(Err(e)) => {
+                if !e.to_string().contains("include") {
+                    rep.fail("cycle-error", input.clone(), format!("the error does not name the include directive: {e}"));
+                }
+            }
+        }
+        if k != 1 {
+            // (the model's path arithmetic is textual: no `..`)
+            if let Ok(toks) = catch(|| a2lfile::verif_hooks::tokenize_path_dump(&main_path)) {
+                let req = format!("inc main.a2l {}", files.iter().map(|(n, c)| format!("{}={}", hex(n.as_bytes()), hex(c.as_bytes()))).collect::<Vec<_>>().join(","));
+                let ans = match toks {
+                    Ok(t) => format!("ok {}", t.iter().map(|(k, s, f, _)| format!("{k}:{f}:{}", hex(s.as_bytes()))).collect::<Vec<_>>().join(" ")),
+                    Err(e) => format!("err {}", e.split(':').last().unwrap_or("").trim().split(' ').take(3).collect::<Vec<_>>().join("_")),
+                };
+                rep.tie(req, ans);
+            }
+        }
+    }
     if let Some(c) = old_cwd {
         let _ = std::env::set_current_dir(c);
     }
